@@ -196,12 +196,12 @@ class TheoryTermToTermTransformer(_ast.Transformer):
     """
     This class transforms a given theory term into a plain term.
     """
-    def visit_TheoryTermSequence(self, x):
+    def visit_TheorySequence(self, x):
         """
         Theory term tuples are mapped to term tuples.
         """
         if x.sequence_type == _ast.TheorySequenceType.Tuple:
-            return _ast.Function(x.location, "", [self(a) for a in x.arguments], False)
+            return _ast.Function(x.location, "", [self(a) for a in x.terms], False)
         else:
             raise RuntimeError("invalid term: {}".format(_tf.str_location(x.location)))
 
@@ -292,7 +292,7 @@ class TheoryTermToAtomTransformer(_ast.Transformer):
         raise RuntimeError("invalid temporal formula in rule head: {}".format(_tf.str_location(x.location)))
 
 
-    def visit_TheoryTermSequence(self, x, positive):
+    def visit_TheorySequence(self, x, positive):
         """
         Raises an error.
         """
@@ -363,7 +363,7 @@ class TheoryAtomTransformer(_ast.Transformer):
         """
         raise RuntimeError("invalid temporal formula in rule head: {}".format(_tf.str_location(x.location)))
 
-    def visit_TheoryTermSequence(self, x, rng):
+    def visit_TheorySequence(self, x, rng):
         """
         Raises an error.
         """
